@@ -120,6 +120,8 @@ let handle op args =
          if k = 0 then (if toks <> [] then failwith "refl: trailing op tokens"; Stdlib.List.rev acc)
          else let (st, r) = parse_op toks in steps (k - 1) r (st :: acc) in
        let sts = steps (int_of_string n) toks [] in
+       (* hypothesis of the invariant theorems, checked on every case *)
+       if not (refl_wf s Datatypes.O init) then failwith "refl: initial state is not well formed";
        let (_, outs) = refl_run s d init sts in
        Stdlib.List.concat (Stdlib.List.map2 (fun st (o, m) ->
            out_tokens o @ (if refl_dumps st.rs_op then "s" :: Fam_msg.value_tokens m else []) @ [";"]) sts outs)
